@@ -15,4 +15,5 @@ CHECK = {'pkgs': ['core/parsigdb'],
  'trusted': "the store's private `entries` map is taken as ground truth of what was accepted; synctest/vsync/runtime overlay as for C17",
  'rule': 'sequences of StoreInternal/StoreExternal calls + interleavings; distinct = distinct outcome vectors',
  'budget_s': {'quick': 100, 'thorough': 1500}}
+CHECK["race_tests"] = {"core/parsigdb": "TestVerifRaceC07"}
 CHECK["assumptions"] = SCHEDX_ASSUME
